@@ -149,17 +149,23 @@ def decls_of(path: str):
 
 
 def theorems_of(prop: str):
-    path = os.path.join(LEAN, "S2T", "Props", f"{prop}.lean")
-    ns = None
-    with open(path, encoding="utf-8") as fh:
-        for line in fh:
-            m = re.match(r"^namespace\s+(\S+)", line)
-            if m:
-                ns = m.group(1)
-                break
-    ds = decls_of(path)
-    thms = [(ns + "." + n if ns else n) for (_, k, n) in ds if k in ("theorem", "lemma")]
-    examples = [n for (_, k, n) in ds if k == "example"]
+    """property theorems = non-private theorems of Props/<prop>.lean and of its parts Props/<prop>_*.lean
+    (the parts must be imported by Props/<prop>.lean)"""
+    pdir = os.path.join(LEAN, "S2T", "Props")
+    files = [f"{prop}.lean"] + sorted(f for f in os.listdir(pdir) if f.startswith(prop + "_") and f.endswith(".lean"))
+    thms, examples = [], []
+    for fn in files:
+        path = os.path.join(pdir, fn)
+        ns = None
+        with open(path, encoding="utf-8") as fh:
+            for line in fh:
+                m = re.match(r"^namespace\s+(\S+)", line)
+                if m:
+                    ns = m.group(1)
+                    break
+        ds = decls_of(path)
+        thms += [(ns + "." + n if ns else n) for (_, k, n) in ds if k in ("theorem", "lemma")]
+        examples += [n for (_, k, n) in ds if k == "example"]
     return thms, examples
 
 
